@@ -94,6 +94,19 @@ template <typename T, typename U> static void run_mix(const char *name, char op,
   std::putchar('\n');
 }
 
+// reversed form U op SafeInt<T> (aslbuilder.cc: sizeof(..) + SafeInt<int>(..)): the plain LEFT operand is converted first
+static void run_rev_add_ul_i(unsigned long a, int b) {
+  std::printf("revadd_ul_i "); print_i128((i128)a); std::putchar(' '); print_i128((i128)b); std::putchar(' ');
+  if (g_flush) std::fflush(stdout);
+  try { int r = val(a + mp::SafeInt<int>(b)); std::printf("ret "); print_i128((i128)r); }
+  catch (const mp::OverflowError &) { std::printf("throw"); }
+  std::printf(" | ");
+  i128 ea = (i128)a, eb = (i128)b;
+  if (ea < lo<int>() || ea > hi<int>()) std::printf("throw");
+  else out_oracle<int>(ea + eb);
+  std::putchar('\n');
+}
+
 // operand sets -------------------------------------------------------------
 template <typename T> static std::vector<T> operands(bool thorough, int nrand) {
   std::vector<T> v;
@@ -174,6 +187,7 @@ int main(int argc, char **argv) {
     for (int a : ai) for (int b : ai) { run_mix<int, int>("mixadd_i_i", '+', a, b); run_mix<int, int>("mixmul_i_i", '*', a, b); }
     for (int a : ai) for (unsigned long b : bu) { run_mix<int, unsigned long>("mixadd_i_ul", '+', a, b); run_mix<int, unsigned long>("mixmul_i_ul", '*', a, b); }
     for (unsigned long a : bu) for (unsigned long b : bu) run_mix<unsigned long, unsigned long>("mixadd_ul_ul", '+', a, b);
+    for (unsigned long a : bu) for (int b : ai) run_rev_add_ul_i(a, b);
   }
   return 0;
 }
